@@ -569,7 +569,9 @@ func (s *BaseNodeService) reinitDKG(message storage.Message) error {
 		return fmt.Errorf("failed to umarshal request:  %w", err)
 	}
 
-	if len(req.DKGID) == 0 {
+	// (a round id that is blank after trimming is refused when the round is created, further down,
+	// after the reinit operation has been stored)
+	if len(strings.TrimSpace(req.DKGID)) == 0 {
 		return errors.New("reinit DKG request has empty {dkg_id}")
 	}
 
